@@ -1,7 +1,6 @@
 use std::{
     collections::{HashMap, VecDeque},
     convert::Infallible,
-    future::Future,
     sync::Arc,
 };
 
@@ -583,15 +582,18 @@ async fn send_input(
 /// oldest frame the channel still holds. The frames in between are not lost: they are in the
 /// stream's history. `refill` re-reads that history and delivery carries on after the last seq
 /// sent, so a slow client still receives every frame exactly once and in order.
-fn live_frames<F, Fut>(
+///
+/// `refill` must not wait: this stream is polled only as fast as its client reads, and a place in
+/// a lock queue held by a stream that is not polled would stall the producer. It answers `None`
+/// while the history is being written to and is asked again.
+fn live_frames<F>(
     receiver: broadcast::Receiver<rip_kernel::Event>,
     last_seq: Option<u64>,
     stream_id: Option<String>,
     refill: F,
 ) -> impl Stream<Item = Result<SseEvent, Infallible>> + Send
 where
-    F: Fn() -> Fut + Send + 'static,
-    Fut: Future<Output = Vec<rip_kernel::Event>> + Send,
+    F: Fn() -> Option<Vec<rip_kernel::Event>> + Send + 'static,
 {
     let pending: VecDeque<rip_kernel::Event> = VecDeque::new();
     futures_util::stream::unfold(
@@ -602,7 +604,13 @@ where
                     match receiver.recv().await {
                         Ok(event) => pending.push_back(event),
                         Err(broadcast::error::RecvError::Lagged(_)) => {
-                            pending.extend(refill().await);
+                            let history = loop {
+                                if let Some(history) = refill() {
+                                    break history;
+                                }
+                                tokio::task::yield_now().await;
+                            };
+                            pending.extend(history);
                         }
                         Err(broadcast::error::RecvError::Closed) => return None,
                     }
@@ -665,8 +673,7 @@ async fn stream_events(
     });
 
     let live_stream = live_frames(receiver, last_seq, None, move || {
-        let handle = handle.clone();
-        async move { handle.events_snapshot().await }
+        handle.try_events_snapshot()
     });
 
     let stream = past_stream.chain(live_stream);
@@ -1396,8 +1403,7 @@ async fn thread_stream_events(
 
     // The continuity channel carries the frames of every thread: only this thread's go out.
     let live_stream = live_frames(receiver, last_seq, Some(thread_id.clone()), move || {
-        let history = store.replay_events(&thread_id).unwrap_or_default();
-        async move { history }
+        Some(store.replay_events(&thread_id).unwrap_or_default())
     });
 
     let stream = past_stream.chain(live_stream);
@@ -1563,8 +1569,7 @@ async fn stream_task_events(
     });
 
     let live_stream = live_frames(receiver, last_seq, None, move || {
-        let handle = handle.clone();
-        async move { handle.events_snapshot().await }
+        handle.try_events_snapshot()
     });
 
     let stream = past_stream.chain(live_stream);
